@@ -133,6 +133,17 @@ func run(c *core.Ctx) {
 	}
 	rec("", 0)
 	c.SetExhaustive("all filenames up to the length bound over the 20-symbol alphabet x 8 dirs")
+	for bi, n := range gen.BoundaryLens() {
+		if !c.Mine(bi) {
+			continue
+		}
+		for _, sp := range []string{"/x", "/..", ":", "", " ", "\n", "..", "\u00a0.."} {
+			check(c, "a/b", "", gen.Pad("f", n)+sp)
+			check(c, "", "", sp+gen.Pad("f", n))
+			check(c, gen.Pad("d", n), "s", ".."+gen.Pad(" ", n%5))
+			check(c, "a/b", "", gen.Pad(" ", n%7)+".."+gen.Pad("\t", n%3))
+		}
+	}
 	r := c.Rng("soup")
 	atoms := append([]string{"..", "../", "/..", "./", "/.", "//", "...", "etc", "passwd", "x.tmpl", "%2e%2e", "%2f", "..\\", "\\..", "C:", "a:b", ":/x", "\xff", "é"}, alpha...)
 	for i := 0; i < c.N(300000, 3000000)/c.NShards; i++ {
